@@ -16,6 +16,7 @@ import (
 	"sort"
 	"strconv"
 	"strings"
+	"verif/appchild"
 
 	"github.com/TarsCloud/TarsGo/tars/util/conf"
 
@@ -640,6 +641,7 @@ func injectFaults(r *rand.Rand, d *doc) []fault {
 }
 
 func main() {
+	appchild.MaybeChild()
 	run = vlib.Start("C17")
 	run.SetRule("documents generated from the config grammar (nesting 1..6, re-opened domains, names from [A-Za-z0-9_.-], values with inner blanks/'='/'#'/quotes/unicode, paddings, CRLF, comments, blank lines, keys without '=', empty keys, duplicate keys, typed values); every getter compared with the generating model. Faults: '&'/'<' inside a line, unclosed domain, mismatched/stray end tag, truncation at a line, over-long line, invalid domain name. Hostile: seeded random bytes and mutated documents under recover(). A case is one distinct document text.")
 	run.Assume("a key and a sub-domain of the same name in one domain, keys containing '/', '<', '>' and XML entities are outside the judged grammar")
@@ -770,6 +772,7 @@ func main() {
 		}()
 	}
 	run.Set("hostile_documents", nh)
+	appConfScenario()
 	run.Finish()
 }
 
